@@ -36,7 +36,16 @@ pub fn tamperings(ctx: &mut Ctx, p: &CpD, c: &Scalar) -> Vec<(String, CpD, Scala
         q.zbf = alt;
         out.push((format!("zbf#{}", k), q, *c));
     }
-    for i in 0..p.zs.len() {
+    // every response scalar; for long tuples both ends, the neighbourhood of 16 / 32 / 64 and a random sample
+    let n = p.zs.len();
+    let positions: Vec<usize> = if n <= 20 { (0..n).collect() } else {
+        let mut v = vec![0, 1, n - 2, n - 1];
+        for b in [16usize, 32, 64] { for d in [b - 1, b] { if d < n { v.push(d); } } }
+        for _ in 0..4 { v.push(ctx.prng.gen_range(0..n)); }
+        v.sort(); v.dedup();
+        v
+    };
+    for i in positions {
         for (k, alt) in scalar_alts(ctx, &p.zs[i]).into_iter().enumerate() {
             let mut q = p.clone();
             q.zs[i] = alt;
